@@ -32,7 +32,7 @@ CALL_VERBS = {
     "SPACK": {"SPACK", "PACKS"},
 }
 PROFILES = ["calm", "bursty", "misaddr", "malformed", "mixed", "stall"]
-KINDS = ["reply_nobody", "unknown", "statp", "misaddr", "malframed", "hello", "rferr", "wcerr"]
+KINDS = ["reply_nobody", "unknown", "statp", "misaddr", "malframed", "hello", "rferr", "wcerr", "short"]
 
 
 def frame(src: bytes, dst: bytes, inner: bytes) -> bytes:
@@ -47,8 +47,8 @@ def gen_case(seed: int, tier: str, index: int) -> Dict[str, Any]:
     if profile == "stall":
         loop_cfg.update(cost_stall_p=0.004, cost_stall_min=0.03, cost_stall_max=rng.choice([0.15, 0.4, 1.0]))
     dur = rng.choice([30, 60, 120]) if tier == "quick" else rng.choice([60, 150, 300])
-    weights = {"calm": [3, 3, 3, 1, 1, 1, 0, 0.3], "bursty": [3, 3, 3, 1, 1, 1, 0, 0.2], "misaddr": [1, 1, 2, 8, 1, 0, 0, 0.2],
-               "malformed": [1, 2, 1, 1, 8, 2, 0, 0], "mixed": [2, 2, 2, 2, 2, 1, 0.15, 0.3], "stall": [2, 2, 2, 2, 2, 1, 0, 0.2]}[profile]
+    weights = {"calm": [3, 3, 3, 1, 1, 1, 0, 0.3, 1], "bursty": [3, 3, 3, 1, 1, 1, 0, 0.2, 1], "misaddr": [1, 1, 2, 8, 1, 0, 0, 0.2, 0.5],
+               "malformed": [1, 2, 1, 1, 8, 2, 0, 0, 3], "mixed": [2, 2, 2, 2, 2, 1, 0.15, 0.3, 1.5], "stall": [2, 2, 2, 2, 2, 1, 0, 0.2, 1]}[profile]
     n = rng.randint(15, 80) if tier == "quick" else rng.randint(30, 250)
     plan: List[Dict[str, Any]] = []
     t = 0.5
@@ -134,6 +134,12 @@ def make_junk(op: Dict[str, Any], client_id: bytes) -> Tuple[bytes, Dict[str, An
         elif how == "wrong_port":
             lab["src"] = (SPA_IP, 10023)
         return frame(s, d, inner + (b"" if inner[:5] != b"STATP" else b"")), dict(lab, verb=inner[:5].decode(), addressed=False, how=how)
+    if kind == "short":
+        # fewer bytes than a verb has: an empty datagram, fragments of known verbs -- raw, or as the payload of a well-addressed packet
+        frag = rng.choice([b"", b"R", b"RF", b"ERR", b"RFER", b"STAT", b"APIN", b"WC", b"<PA", b"\x00"])
+        if rng.random() < 0.5:
+            return frag, dict(lab, verb=frag.decode("latin1"), framed=False, addressed=None, how="raw")
+        return frame(spa, client_id, frag), dict(lab, verb=frag.decode("latin1"), how="framed")
     if kind == "malframed":
         inner = rng.choice([b"STATP\x01" + struct.pack(">H", 850 + n % 50) + SENTINEL, b"RFERR", b"XQZZY" + tag])
         how = rng.choice(["no_close", "no_descn", "no_datas", "no_srccn", "nested_ids", "tags_in_payload", "trailing", "only_open"])
